@@ -179,6 +179,27 @@ func (in Ins) String() string {
 type ReadOpts struct {
 	Owners     []string        // script names (incl. inline map script names)
 	UserLabels map[string]bool // labels the author wrote inside scripts
+	DataLabels map[string]bool // labels of data blocks (text, movement, mart, mapscripts headers/tables, raw data)
+}
+
+func isHoistedLabel(name string, owners []string) bool {
+	for _, o := range owners {
+		for _, mid := range []string{"_Text_", "_Movement_"} {
+			pre := o + mid
+			if len(name) > len(pre) && strings.HasPrefix(name, pre) {
+				ok := true
+				for _, c := range name[len(pre):] {
+					if c < '0' || c > '9' {
+						ok = false
+					}
+				}
+				if ok {
+					return true
+				}
+			}
+		}
+	}
+	return false
 }
 
 func isChunkLabel(name string, owners []string) bool {
@@ -204,6 +225,7 @@ func isChunkLabel(name string, owners []string) bool {
 func ReadAsm(text string, ro ReadOpts) *Prog {
 	p := NewProg()
 	lines := strings.Split(text, "\n")
+	inData := false
 	for i, raw := range lines {
 		line := strings.TrimRight(raw, "\r")
 		t := strings.TrimSpace(line)
@@ -217,9 +239,13 @@ func ReadAsm(text string, ro ReadOpts) *Prog {
 			name := strings.TrimSuffix(strings.TrimSuffix(t, ":"), ":")
 			internal := ro.UserLabels[name] || isChunkLabel(name, ro.Owners)
 			p.AddLabel(name, !internal)
+			inData = ro.DataLabels[name] || isHoistedLabel(name, ro.Owners)
 			continue
 		}
 		in := parseIns(t)
+		if inData {
+			in = Ins{Op: OpData, Text: t}
+		}
 		in.Line = i + 1
 		p.Add(in)
 	}
